@@ -530,6 +530,7 @@ func (m *Machine) runPath(fn *ssa.Function, pfx Prefix, b Bounds, solver *smt.So
 		p.initModel = nil
 	}
 	p.sched = newSched()
+	p.stepBudget = b.MaxSteps
 	m.path = p
 	m.journaling = true
 	m.maxDepth = b.MaxDepth
@@ -562,6 +563,32 @@ func (m *Machine) runPath(fn *ssa.Function, pfx Prefix, b Bounds, solver *smt.So
 		case pathEnd:
 			res.End = x.reason
 			res.Detail = m.where()
+			if x.reason == "unwind:steps" && p.mustTerminate != "" {
+				// the harness declared that the code under test must terminate within the
+				// step budget: running out of steps is a counterexample (non-termination)
+				if len(p.models) == 0 && p.initModel != nil {
+					p.models = append(p.models, p.initModel)
+				}
+				if len(p.models) > 0 {
+					if vec, ok := p.inputVector(p.models[0]); ok {
+						res.CEs = append(res.CEs, CounterExample{Label: p.mustTerminate, Kind: "assert", Vector: vec,
+							Message: fmt.Sprintf("did not terminate within %d interpreted steps", p.maxSteps), Where: res.Detail})
+						res.End = "assert-failed"
+						return
+					}
+				}
+			}
+			if strings.HasPrefix(x.reason, "unwind") || strings.HasPrefix(x.reason, "deadlock") {
+				// keep an input that leads here, to make the bound failure diagnosable
+				if len(p.models) == 0 && p.initModel != nil {
+					p.models = append(p.models, p.initModel)
+				}
+				if len(p.models) > 0 {
+					if vec, ok := p.inputVector(p.models[0]); ok {
+						res.Detail += fmt.Sprintf(" input=%v", vec)
+					}
+				}
+			}
 		case unsupported:
 			res.End = "unsupported"
 			res.Detail = string(x) + " at " + m.stack()
